@@ -561,11 +561,10 @@ func (s *c10conc) worker(w int) {
 			}
 		case opCall, opACall:
 			h := s.handles[o.H]
-			rec := &callRec{uid: atomic.AddUint64(&s.uid, 1), h: o.H, recv: o.Recv}
+			rec := &callRec{uid: atomic.AddUint64(&s.uid, 1), h: o.H, recv: o.Recv, tCall: cc.log.tick()}
 			s.mu.Lock()
 			s.calls = append(s.calls, rec)
 			s.mu.Unlock()
-			rec.tCall = cc.log.tick()
 			if o.Kind == opACall {
 				a := &asyncOp{name: "async call", done: make(chan struct{})}
 				s.mu.Lock()
@@ -981,6 +980,8 @@ func runC10Conc(rec *common.Recorder, idx uint64, seed uint64) bool {
 }
 
 func (s *c10conc) promDesc() []map[string]interface{} {
+	s.mu.Lock()
+	defer s.mu.Unlock()
 	var out []map[string]interface{}
 	for _, p := range s.proms {
 		out = append(out, map[string]interface{}{"idx": p.idx, "hook": p.hook, "worker": p.worker, "target": p.target, "fulCall": p.fulCall, "fulRet": p.fulRet})
@@ -991,8 +992,10 @@ func (s *c10conc) promDesc() []map[string]interface{} {
 func (s *c10conc) handleDesc() []map[string]interface{} {
 	var out []map[string]interface{}
 	for _, h := range s.handles {
+		h.mu.Lock()
 		out = append(out, map[string]interface{}{"id": h.id, "root": h.root, "shared": h.shared, "releaser": h.releaser, "owner": h.owner,
 			"nil": h.nilClient, "created": h.createRet, "relCall": h.relCall, "relRet": h.relRet})
+		h.mu.Unlock()
 	}
 	return out
 }
